@@ -504,7 +504,7 @@ func (p DevDeleteImageAnsPayload) Size() int {
 func (p DevDeleteImageAnsPayload) MarshalBinary() ([]byte, error) {
 	b := make([]byte, p.Size())
 	b[0] = p.Status.ErrorNoValidImage & 0x1
-	b[0] = b[0] | (p.Status.ErrorNoValidImage&0x1)<<1
+	b[0] = b[0] | (p.Status.ErrorInvalidVersion&0x1)<<1
 
 	return b, nil
 }
